@@ -139,6 +139,24 @@ if __name__ == "__main__":
               {k: r.get(k) for k in ("applies", "rebased", "demo_clean", "demo_patched", "suite_regressions", "apply_error")})
     elif cmd == "run":
         print(json.dumps(run(sys.argv[2], sys.argv[3:] or None), indent=1))
+    elif cmd in ("update", "table"):
+        for sid in (sys.argv[2:] if cmd == "update" else []):
+            meta = json.load(open(f"{SEEDED}/{sid}/meta.json"))
+            meta["result"] = run(sid, meta.get("checks") or None)
+            json.dump(meta, open(f"{SEEDED}/{sid}/meta.json", "w"), indent=1)
+            print(sid, {p: ("DETECTED" if v["detected"] else "MISSED", v["tier"]) for p, v in meta["result"].items()}, flush=True)
+        with open(f"{SEEDED}/RESULTS.md", "w") as f:
+            f.write("| seeded change | what it changes | check | result | tier | first line reported |\n|---|---|---|---|---|---|\n")
+            for sid in sorted(os.listdir(SEEDED)):
+                if not os.path.exists(f"{SEEDED}/{sid}/meta.json"):
+                    continue
+                meta = json.load(open(f"{SEEDED}/{sid}/meta.json"))
+                for p, v in (meta.get("result") or {}).items():
+                    f.write(f"| {sid} | {meta.get('summary', '')[:110].replace('|', '/')} | {p} | "
+                            f"{'DETECTED' if v['detected'] else 'MISSED'} | {v['tier']} | "
+                            f"{(v['what'][0] if v['what'] else '')[:110].replace('|', '/')} |\n")
+                if meta.get("note"):
+                    f.write(f"| {sid} | note | | | | {meta['note'][:300].replace('|', '/')} |\n")
     elif cmd == "all":
         rows = []
         for sid in sorted(os.listdir(SEEDED)):
